@@ -27,9 +27,11 @@ for d in sorted(glob.glob("/verif/seeded/C*")):
     if os.path.exists(rlog):
         t = open(rlog).read()
         m = re.search(r"SEED-RESULT \S+ exit=(\d+)", t)
+        mt = re.search(r"SEED-RESULT \S+ exit=\d+ tier=(\S+)", t)
         viols = sorted(set(re.findall(r"(\S+) (assert:\S+) K=\S+ -> violation", t)))
         meta["detected"] = dict(
-            check=f"VERIF_REPO=/tmp/seed_{pid} ./check {pid} --tier quick",
+            check=f"VERIF_REPO=/tmp/seed_{pid} ./check {pid[:3]} --tier {mt.group(1) if mt else 'quick'}",
+            tier=(mt.group(1) if mt else "quick"), applies=("SEED-PATCH-DOES-NOT-APPLY" not in t),
             exit=int(m.group(1)) if m else None,
             caught=bool(m and m.group(1) == "1"),
             violated=[f"{q}:{a[7:]}" for q, a in viols][:12])
